@@ -94,25 +94,52 @@ func runC07(c *Ctx, r *Rec) {
 
 	// ---- D1 leaves
 	nleaves := 0
-	for _, name := range sortedKeys(cr.ms) {
-		fd := cr.ms[name]
-		if ast.IsExported(name) || !cr.returnsRank(c, fd) {
-			continue
-		}
+	leaves := rankLeaves(c, cr)
+	perClass := map[string]int{}
+	for _, lf := range leaves {
+		perClass[lf.class]++
+	}
+	for _, lf := range leaves {
+		fd := lf.fd
 		params := paramObjs(info, fd)
 		if len(params) != 2 {
 			continue
 		}
-		bt, ok := params[0].Type().Underlying().(*types.Basic)
-		if !ok || !types.Identical(params[0].Type(), params[1].Type()) {
-			continue
-		}
 		nleaves++
-		construct := c.fdName(fd)
+		// the construct names the role (the class of primitives ranked), not the private function
+		construct := "agent.collator/rank-leaf[" + lf.class + "]"
+		if perClass[lf.class] > 1 {
+			construct += "/" + fd.Name.Name
+		}
 		a, b := sym(params[0].Name()), sym(params[1].Name())
+		if lf.class == "string" {
+			// strings are ranked byte-wise; decoding them into runes maps every invalid byte to U+FFFD
+			lossy := ""
+			ast.Inspect(fd.Body, func(x ast.Node) bool {
+				if call, ok := x.(*ast.CallExpr); ok && len(call.Args) == 1 {
+					if tv, ok := info.Types[call.Fun]; ok && tv.IsType() {
+						if sl, ok := tv.Type.Underlying().(*types.Slice); ok {
+							if b, ok := sl.Elem().Underlying().(*types.Basic); ok && b.Kind() == types.Int32 && isStringType(info.TypeOf(call.Args[0])) {
+								lossy = fmt.Sprintf("the string leaf ranks %s, the operand decoded into runes: every byte that is not valid UTF-8 becomes U+FFFD, so distinct strings rank Equal and the byte-wise order (and prefix-first) is lost", exprStr(call))
+							}
+						}
+					}
+				}
+				if rs, ok := x.(*ast.RangeStmt); ok && isStringType(info.TypeOf(rs.X)) && rs.Value != nil {
+					lossy = "the string leaf ranges over the runes of an operand: every byte that is not valid UTF-8 becomes U+FFFD, so distinct strings rank Equal"
+				}
+				return true
+			})
+			if lossy != "" {
+				r.fail("D1-leaf-order", construct, c.pos(fd.Pos()), lossy)
+				continue
+			}
+		}
 		env := &symEnv{info: info}
-		isFloat := bt.Info()&(types.IsFloat|types.IsComplex) != 0
-		isComplex := bt.Info()&types.IsComplex != 0
+		enableInlining(c, env, fd, nil)
+		isFloat := lf.class == "float" || lf.class == "complex"
+		isComplex := lf.class == "complex"
+		isBoolean, isInteger := lf.class == "boolean", lf.class == "signed" || lf.class == "unsigned"
 		keyResolve := func(e ast.Expr) (Val, bool) {
 			// derived keys of the complex leaf: Abs(x), Phase(x)
 			if call, ok := e.(*ast.CallExpr); ok && len(call.Args) == 1 {
@@ -129,7 +156,7 @@ func runC07(c *Ctx, r *Rec) {
 		env.resolve = keyResolve
 		var spec []specRow
 		switch {
-		case bt.Info()&types.IsBoolean != 0:
+		case isBoolean:
 			env.base = Cube{a.scale(-1), a.plus(-1), b.scale(-1), b.plus(-1)}
 			fallthrough
 		case !isComplex:
@@ -162,7 +189,7 @@ func runC07(c *Ctx, r *Rec) {
 			}
 		}
 		viol, undec := conform(env, paths, spec)
-		if len(env.wraps) > 0 && bt.Info()&types.IsInteger != 0 {
+		if len(env.wraps) > 0 && isInteger {
 			viol = append(viol, fmt.Sprintf("the leaf computes %s in fixed-width arithmetic: for operands further apart than half the type's range the result wraps around and the sign test gives the wrong order (for example MaxInt64 against -1)", strings.Join(dedup(env.wraps), ", ")))
 		}
 		switch {
@@ -176,6 +203,7 @@ func runC07(c *Ctx, r *Rec) {
 		if isFloat {
 			// the IEEE-unordered cell: every comparison of the operands (and of keys derived from them) is false, != is true
 			envU := &symEnv{info: info, resolve: keyResolve, unordered: map[string]bool{}}
+			enableInlining(c, envU, fd, nil)
 			for _, p := range params {
 				envU.unordered[p.Name()] = true
 				envU.unordered["abs:"+p.Name()] = true
@@ -591,9 +619,14 @@ func checkRankComposites(c *Ctx, r *Rec, cr *collRoles) {
 				}
 			}
 			viol, undec := conform(env, paths, spec)
+			for _, p := range paths {
+				if p.Kind == "return" && (len(p.Rets) != 1 || p.Rets[0].Lin == nil) {
+					undec = append(undec, "the result of the swap arm is computed in a way the interpreter does not follow (a lookup table, a call)")
+				}
+			}
 			switch {
 			case len(env.problems)+len(undec) > 0:
-				r.skip("D2-mirror", construct, c.pos(call.Pos()), strings.Join(append(env.problems, undec...), "; "))
+				r.skip("D2-mirror", construct, c.pos(call.Pos()), strings.Join(dedup(append(env.problems, undec...)), "; "))
 			case len(viol) > 0:
 				r.fail("D2-mirror", construct, c.pos(call.Pos()), strings.Join(viol, " | "))
 			default:
